@@ -330,8 +330,11 @@ flexrule	:  '^' rule
 					lwarn(
 			"all start conditions already have <<EOF>> rules" );
 
-				else
-					build_eof_action();
+				/* Even when no start condition is left, the
+				 * action's text must be opened and the rule
+				 * number given back.
+				 */
+				build_eof_action();
 				}
 			}
 
